@@ -105,11 +105,16 @@ def replay(case):
         return [ev]
     if k == "pda":
         pdah.STATE_POOLS["spell"] = SPELL_STATES[case["pool"]]
-        pdah.STACK_POOLS["spell"] = {"Z": SPELL_STATES[case["pool"]]["q3"], "X": SPELL_SYMS[case["pool"]]["b"], "Y": "Y"}
+        # the start stack symbol of the integer pool is 0 (a falsy value)
+        pdah.STACK_POOLS["spell"] = {"Z": 0 if case["pool"] == "int" else SPELL_STATES[case["pool"]]["q3"],
+                                     "X": SPELL_SYMS[case["pool"]]["b"], "Y": "Y"}
         # every third PDA also declares a state that occurs in no transition (through the constructor)
         extra = ("isolated",) if len(case["hist"]) % 3 == 0 else ()
-        p, _ = pdah.build(case["hist"], "spell", "spell", ymap=SPELL_SYMS[case["pool"]], extra_states=extra)
+        p, built = pdah.build(case["hist"], "spell", "spell", ymap=SPELL_SYMS[case["pool"]], extra_states=extra)
         X = pdah.project(p)
+        # PDA has no accessor for the start stack symbol: the machine that was built has the one the history set (the
+        # projection can only read it through the export under test)
+        X["z0"] = built["z0"]
         from pyformlang.pda import PDA
         r = guard.call(lambda: PDA.from_networkx(p.to_networkx()))
         ev = {"op": "pda_nx_roundtrip", "X": X, "pool": case["pool"]}
